@@ -190,6 +190,59 @@ func getFileNameForType(typePrefix string, headerType HeaderFooterType) string {
 	}
 }
 
+// headerFooterFileName 返回某类型页眉/页脚应写入的部件文件名，prefix 为 "header" 或 "footer"。
+//
+// 打开的文档不一定按 header1/headerfirst/headereven 命名部件（Word 按创建顺序编号，
+// header1.xml 可能是偶数页页眉），因此：
+//  1. 该类型在节属性中已有引用并能解析到部件时，直接覆盖该部件（替换原定义）；
+//  2. 否则使用约定的文件名，前提是该文件名尚未被占用；
+//  3. 否则选择一个未使用的文件名，避免覆盖其他类型的页眉/页脚。
+func (d *Document) headerFooterFileName(prefix string, hfType HeaderFooterType) string {
+	relType := "http://schemas.openxmlformats.org/officeDocument/2006/relationships/" + prefix
+	sectPr := d.getSectionPropertiesForHeaderFooter()
+
+	refID := ""
+	if prefix == "header" {
+		for _, ref := range sectPr.HeaderReferences {
+			if ref != nil && ref.Type == string(hfType) {
+				refID = ref.ID
+				break
+			}
+		}
+	} else {
+		for _, ref := range sectPr.FooterReferences {
+			if ref != nil && ref.Type == string(hfType) {
+				refID = ref.ID
+				break
+			}
+		}
+	}
+	if refID != "" {
+		for _, rel := range d.documentRelationships.Relationships {
+			if rel.ID == refID && rel.Type == relType && rel.Target != "" && !strings.ContainsAny(rel.Target, "/\\") {
+				return rel.Target
+			}
+		}
+	}
+
+	inUse := func(name string) bool {
+		if _, ok := d.parts["word/"+name]; ok {
+			return true
+		}
+		for _, rel := range d.documentRelationships.Relationships {
+			if rel.Target == name {
+				return true
+			}
+		}
+		return false
+	}
+	name := getFileNameForType(prefix, hfType)
+	for n := 1; inUse(name); n++ {
+		name = fmt.Sprintf("%s%d.xml", prefix, n)
+	}
+	return name
+}
+
 // AddHeader 添加页眉
 func (d *Document) AddHeader(headerType HeaderFooterType, text string) error {
 	header := createStandardHeader()
@@ -220,7 +273,7 @@ func (d *Document) AddHeader(headerType HeaderFooterType, text string) error {
 	fullXML := append([]byte(xml.Header), headerXML...)
 
 	// 获取文件名
-	fileName := getFileNameForType("header", headerType)
+	fileName := d.headerFooterFileName("header", headerType)
 	headerPartName := fmt.Sprintf("word/%s", fileName)
 
 	// 存储页眉内容
@@ -273,7 +326,7 @@ func (d *Document) AddFooter(footerType HeaderFooterType, text string) error {
 	fullXML := append([]byte(xml.Header), footerXML...)
 
 	// 获取文件名
-	fileName := getFileNameForType("footer", footerType)
+	fileName := d.headerFooterFileName("footer", footerType)
 	footerPartName := fmt.Sprintf("word/%s", fileName)
 
 	// 存储页脚内容
@@ -352,7 +405,7 @@ func (d *Document) AddHeaderWithPageNumber(headerType HeaderFooterType, text str
 	fullXML := append([]byte(xml.Header), headerXML...)
 
 	// 获取文件名
-	fileName := getFileNameForType("header", headerType)
+	fileName := d.headerFooterFileName("header", headerType)
 	headerPartName := fmt.Sprintf("word/%s", fileName)
 
 	// 存储页眉内容
@@ -431,7 +484,7 @@ func (d *Document) AddFooterWithPageNumber(footerType HeaderFooterType, text str
 	fullXML := append([]byte(xml.Header), footerXML...)
 
 	// 获取文件名
-	fileName := getFileNameForType("footer", footerType)
+	fileName := d.headerFooterFileName("footer", footerType)
 	footerPartName := fmt.Sprintf("word/%s", fileName)
 
 	// 存储页脚内容
@@ -590,7 +643,7 @@ func (d *Document) AddFormattedHeader(headerType HeaderFooterType, config *Heade
 	fullXML := append([]byte(xml.Header), headerXML...)
 
 	// 获取文件名
-	fileName := getFileNameForType("header", headerType)
+	fileName := d.headerFooterFileName("header", headerType)
 	headerPartName := fmt.Sprintf("word/%s", fileName)
 
 	// 存储页眉内容
@@ -655,7 +708,7 @@ func (d *Document) AddFormattedFooter(footerType HeaderFooterType, config *Heade
 	fullXML := append([]byte(xml.Header), footerXML...)
 
 	// 获取文件名
-	fileName := getFileNameForType("footer", footerType)
+	fileName := d.headerFooterFileName("footer", footerType)
 	footerPartName := fmt.Sprintf("word/%s", fileName)
 
 	// 存储页脚内容
